@@ -23,7 +23,9 @@ FMAX = [0, 4096, 4097, 131071, 131072, 131073, 2 ** 32 - 1]
 def refusal_coq(r):
     if r is None:
         return 'NoRefusal'
-    if r[0] == 'close':
+    if r[0] in ('close', 'closedrop'):
+        # a broker that closes with a code and then drops the socket (what real brokers do)
+        # is a refusal with that code: the later transport error must not replace it
         return '(CloseAt %s %s)' % (coq_nat(r[1]), coq_Z(r[2]))
     return '(%s %s)' % ({'drop': 'DropAt', 'silent': 'SilentAt'}[r[0]],
                         coq_nat(r[1]))
@@ -58,10 +60,13 @@ class Driver(object):
         steps = ['ProtocolHeader', 'Connection.StartOk', 'Connection.Open']
         if r is not None:
             def refuse(b, ch, fr, r=r):
-                if r[0] == 'close':
+                if r[0] in ('close', 'closedrop'):
                     b.send(0, spec.Connection.Close(
                         reply_code=r[2], reply_text='refused', class_id=10,
                         method_id=10))
+                    if r[0] == 'closedrop':
+                        b.flush()
+                        b.drop('eof')
                 elif r[0] == 'drop':
                     b.drop('eof')
                 return True
@@ -135,6 +140,7 @@ class Driver(object):
                  'x' * 40, 'tab\there', '\U0001F600']
         for step in range(3):
             for r in ([('close', step, c) for c in (320, 403, 530, 200, 541)]
+                      + [('closedrop', step, c) for c in (403, 530)]
                       + [('drop', step), ('silent', step)]):
                 metas.append(self.base(refusal=r))
                 metas.append(self.base(refusal=r, mechs='AMQPLAIN EXTERNAL',
